@@ -312,13 +312,16 @@ def final_density_matrix(
             qubit_order = ops.QubitOrder.explicit(main_qubits, fallback=ops.QubitOrder.DEFAULT)
         elif ignore_measurement_results:
             # case 2: no classical control, only terminal measurement
-            program = measurement_transformers.dephase_measurements(circuit_like)
+            # The noise model sees the moments (and measurements) of the given circuit:
+            # dephasing may spread one measurement over several moments.
+            noise_applied = circuit_like.with_noise(noise) if noise is not None else circuit_like
+            program = measurement_transformers.dephase_measurements(noise_applied)
         else:
             # case 3: no measurement
             program = circuit_like
 
         density_result = density_matrix_simulator.DensityMatrixSimulator(
-            dtype=dtype, noise=None if handling_classical_control else noise, seed=seed
+            dtype=dtype, noise=None if ignore_measurement_results else noise, seed=seed
         ).simulate(
             program,
             initial_state=initial_state,
